@@ -718,6 +718,8 @@ class ConsumerGroup(Coordinator):
             consumer_kwargs = {}
         self.consumer_kwargs = consumer_kwargs
         self.consumers = {}
+        # has stop() begun shutting down the consumers?
+        self._leaving = False
 
     def __repr__(self):
         return "<afkak.{} 0x{:x} for {!r} {} member_id={!r}>".format(
@@ -854,6 +856,12 @@ class ConsumerGroup(Coordinator):
 
         self.rejoin_after_error(result, label="consumer_error")
 
+    def join_and_sync(self):
+        if self._leaving:
+            log.debug("%s join_and_sync: leaving the group, not rejoining", self)
+            return
+        return super(ConsumerGroup, self).join_and_sync()
+
     @inlineCallbacks
     def stop(self, errback_result=None):
         """
@@ -862,5 +870,10 @@ class ConsumerGroup(Coordinator):
         This waits for any ongoing processing to complete and commits offsets.
         It may take some time.
         """
+        if self._start_d is not None and not self._stopping:
+            # We remain a member (and keep sending heartbeats) while the
+            # consumers finish, but must not rejoin: that would start new
+            # consumers beside the ones being shut down.
+            self._leaving = True
         yield self.shutdown_consumers()
         yield super(ConsumerGroup, self).stop(errback_result=errback_result)
